@@ -309,7 +309,7 @@ pub fn sample_of(t: &Trace) -> Value {
     let evs: Vec<String> = t.events.iter().take(16).map(|e| format!("{:?}", e)).collect();
     let tb = |t: &tape::TapeSpec| match t {
         tape::TapeSpec::Explicit(v) => json!({"explicit_len": v.len()}),
-        tape::TapeSpec::Gen { family, len, scale_exp, .. } => json!({"family": tape::FAMILY_NAMES[*family as usize % 13], "len": len, "scale_exp": scale_exp}),
+        tape::TapeSpec::Gen { family, len, scale_exp, .. } => json!({"family": tape::FAMILY_NAMES[*family as usize % 14], "len": len, "scale_exp": scale_exp}),
     };
     json!({
         "config": t.config, "machine": t.machine, "run_index": t.run_index,
